@@ -65,15 +65,24 @@ public:
     suspend_point &operator<<(suspend_point &&other)  {
         if (&other == this) return *this;
         auto count = other._count_flag >> 1;
+        unsigned int i = 0;
+        try {
+            if (other._count_flag & 1) [[unlikely]] {
+                for (; i < count; i++) {
+                    add(other._ext._handles[i]);
+                }
+            } else {
+                for (; i < count; i++) {
+                    add(other._local._handles[i]);
+                }
+            }
+        } catch (...) {
+            //growing failed: the handles taken over so far still belong to other
+            _count_flag -= 2*i;
+            throw;
+        }
         if (other._count_flag & 1) [[unlikely]] {
-            for (std::size_t i = 0; i < count; i++) {
-                add(other._ext._handles[i]);
-            }
             delete [] other._ext._handles;
-        } else {
-            for (std::size_t i = 0; i < count; i++) {
-                add(other._local._handles[i]);
-            }
         }
         other._count_flag = 0;
         return *this;
